@@ -6,7 +6,7 @@
 # removes the worktree and the outputs.
 set -u
 patch=$(readlink -f "$1"); shift
-id=$$
+id=$$-$RANDOM
 wt=/tmp/vfmut-$id
 out=/tmp/vfmut-$id-out
 git -C /repo worktree add -q --detach "$wt" HEAD || exit 2
@@ -15,10 +15,11 @@ trap cleanup EXIT
 if ! git -C "$wt" apply "$patch"; then echo "mutcheck: patch does not apply"; exit 2; fi
 rc_all=0
 for p in "$@"; do
-  VERIF_REPO=$wt VERIF_OUT=$out python3 /verif/vf.py check "$p" --tier "${VERIF_TIER:-quick}" > "$out.$p.log" 2>&1
+  VERIF_SHRINKTIME=${VERIF_SHRINKTIME:-15s} VERIF_REPO=$wt VERIF_OUT=$out python3 /verif/vf.py check "$p" --tier "${VERIF_TIER:-quick}" > "$out.$p.log" 2>&1
   rc=$?
   echo "mutcheck: $p rc=$rc $(grep -c '^VIOLATION' "$out.$p.log") violation line(s)"
   grep -A1 '^VIOLATION' "$out.$p.log" | head -4
+  echo "mutcheck: $p distinct oracles: $(grep -o 'oracle=[^ ]*' "$out.$p.log" | sort | uniq -c | tr '\n' ' ')"
   [ $rc -eq 2 ] && tail -20 "$out.$p.log"
   rm -f "$out.$p.log"
 done
